@@ -959,6 +959,11 @@ class CodeGen:
             return repr(e["k"])
         if "op" in e:
             return "(%s %s %s)" % (self.bx(e["a"]), e["op"], self.bx(e["b"]))
+        if e.get("call") == "ite_lazy" and e.get("same"):
+            # one and the same callable for both branches (a helper that does not depend on the condition)
+            if self.mode == "native":
+                return "(%s)" % self.bx(e["t_"])
+            return "(lambda _f: if_then_else(%s, _f, _f))(lambda: %s)" % (self.bx(e["cond"]), self.bx(e["t_"]))
         if e.get("call") == "ite_lazy":
             if self.mode == "native":
                 return "(%s if %s else %s)" % (self.bx(e["t_"]), self.bx(e["cond"]), self.bx(e["f_"]))
